@@ -626,7 +626,10 @@ func (r *runner) run() {
 	} else if rc, ok := hdr["session"].(map[string]any); ok {
 		r.mt.recipes = rc
 	}
-	timeout := 50 * time.Millisecond
+	// the in-memory transport never waits, so the per-attempt timeout only matters when a script asks for real
+	// time (blockOnLost / UDP, which set it explicitly); a generous default keeps a stalled goroutine on a loaded
+	// machine from expiring an attempt's context before the attempt has even been sent
+	timeout := 30 * time.Second
 	if opts != nil {
 		if ms, ok := opts["timeoutMs"]; ok {
 			timeout = time.Duration(num(ms)) * time.Millisecond
